@@ -18,13 +18,19 @@ pub struct CCase {
     /// SO_PASSCRED on the receiving socket: the kernel puts an SCM_CREDENTIALS message (cmsg_len 28,
     /// not a multiple of 8) in front of the SCM_RIGHTS message
     pub passcred: bool,
+    /// where the control buffer starts: 0 = 8-aligned start, its end rounded up to 8 is the guard page;
+    /// 1 = it ENDS exactly at the guard page (so the start is only as aligned as the size);
+    /// 2,3,4 = start at an 8-aligned address + 1 / 2 / 4
+    pub place: u8,
 }
+
+const PLACES: [&str; 5] = ["start-aligned-8", "ends-at-guard-page", "start-offset-1", "start-offset-2", "start-offset-4"];
 
 impl CCase {
     fn to_json(&self) -> Value {
         json!({"phase": "cmsg", "op": "cmsg", "nfds": self.nfds, "buflen": self.buflen, "fill": self.fill,
                "hdr": if self.hdr_heap { "heap" } else { "stack" }, "ctl": if self.ctl_none { "none" } else { "scm_rights" },
-               "rcv": if self.passcred { "so_passcred" } else { "plain" }})
+               "rcv": if self.passcred { "so_passcred" } else { "plain" }, "place": PLACES[self.place.min(4) as usize]})
     }
     fn from_json(v: &Value) -> Option<CCase> {
         Some(CCase {
@@ -34,6 +40,7 @@ impl CCase {
             hdr_heap: v["hdr"].as_str()? == "heap",
             ctl_none: v["ctl"].as_str() == Some("none"),
             passcred: v["rcv"].as_str() == Some("so_passcred"),
+            place: PLACES.iter().position(|p| Some(*p) == v["place"].as_str()).unwrap_or(0) as u8,
         })
     }
 }
@@ -126,8 +133,12 @@ unsafe fn child(case: &CCase, out: i32) {
     let end = arena.end_ptr();
     GUARD_LO = end as usize;
     let span = (case.buflen + 7) & !7;
-    let start = end.sub(span);
-    std::ptr::write_bytes(start, case.fill, span);
+    let start = match case.place {
+        0 => end.sub(span),
+        1 => end.sub(case.buflen),
+        p => end.sub(span + 8).add([1usize, 2, 4][(p - 2).min(2) as usize]),
+    };
+    std::ptr::write_bytes(start, case.fill, end as usize - start as usize);
     let ctrl: &'static mut [u8] = std::slice::from_raw_parts_mut(start, case.buflen);
     let data: &'static mut [u8] = Box::leak(vec![0u8; 8].into_boxed_slice());
     let io_in: &'static mut [IoSliceMut<'static>] = Box::leak(vec![IoSliceMut::new(data)].into_boxed_slice());
@@ -179,6 +190,28 @@ unsafe fn child(case: &CCase, out: i32) {
 
     // ---- the repository's iterator
     say(out, "stage:iterate");
+    {
+        // the runtime's own "aborting" line is noise on the harness's stderr
+        let nul = libc::open(b"/dev/null\0".as_ptr() as *const libc::c_char, libc::O_WRONLY);
+        if nul >= 0 {
+            libc::dup2(nul, 2);
+        }
+        // a panic that cannot unwind (the alignment / unsafe-precondition checks of builds with debug assertions) aborts
+        // the process: its message must leave through the pipe before that
+        let prev = std::panic::take_hook();
+        std::panic::set_hook(Box::new(move |info| {
+            let msg = if let Some(s) = info.payload().downcast_ref::<&str>() {
+                (*s).to_string()
+            } else if let Some(s) = info.payload().downcast_ref::<String>() {
+                s.clone()
+            } else {
+                "<non-string panic>".to_string()
+            };
+            let loc = info.location().map(|l| format!(" at {}:{}", l.file(), l.line())).unwrap_or_default();
+            say(out, &format!("panicmsg:{}{loc}", msg.replace('\n', " ")));
+            prev(info);
+        }));
+    }
     let hdr_ref: &'static MsgHdrBorrow<'static> = hdr;
     let it = catch(|| {
         let mut yielded: Vec<i32> = Vec::new();
@@ -300,6 +333,7 @@ pub fn run_case(case: &CCase) -> Verdict {
         case.fill,
         if case.hdr_heap { "heap" } else { "stack" }
     );
+    let what = format!("{what}, buffer placement {}", PLACES[case.place.min(4) as usize]);
     let mut v = Verdict { outcome: String::new(), viol: vec![], machinery: None, detail: json!({"stage": stage}) };
     let exited = libc::WIFEXITED(status);
     let code = if exited { libc::WEXITSTATUS(status) } else { -1 };
@@ -308,6 +342,27 @@ pub fn run_case(case: &CCase) -> Verdict {
         v.viol.push((
             "C16:cmsg:reads-outside-buffer".into(),
             format!("{what}: the kernel delivered {k_expect} descriptor(s); stage '{stage}' read past the end of the supplied control buffer (fault inside the PROT_NONE page that follows it)"),
+        ));
+        return v;
+    }
+    let panicmsg = txt.lines().filter_map(|l| l.strip_prefix("panicmsg:")).last().unwrap_or("").to_string();
+    // (inside a shard the inherited crash handler turns SIGABRT into exit status 77)
+    let aborted = (!exited && libc::WTERMSIG(status) == libc::SIGABRT) || (exited && code == 77);
+    if aborted && stage == "iterate" && (panicmsg.contains("misaligned") || panicmsg.contains("to be aligned")) {
+        v.outcome = "abort-misaligned-reference".into();
+        v.viol.push((
+            "C16:cmsg:misaligned-reference".into(),
+            format!(
+                "{what}: control_messages() builds `&mut CmsgHdr` / `&[Fd]` straight on the caller's `&mut [u8]`, which here starts at an address that is {} \
+                 — the build's alignment check aborted the process inside next(): {panicmsg} (the kernel had delivered {k_expect} descriptor(s); they are neither yielded nor closed)",
+                match case.place {
+                    1 => format!("only as aligned as the size {} (the buffer ends at the guard page)", case.buflen),
+                    2 => "8-aligned + 1".to_string(),
+                    3 => "8-aligned + 2".to_string(),
+                    4 => "8-aligned + 4".to_string(),
+                    _ => "8-aligned".to_string(),
+                }
+            ),
         ));
         return v;
     }
@@ -394,6 +449,10 @@ pub fn run_case(case: &CCase) -> Verdict {
     if case.passcred {
         v.outcome.push_str(if n_other > 0 { "|creds-skipped" } else { "|creds-dropped-by-kernel" });
     }
+    if case.place != 0 && (res["controllen_after"].as_u64().unwrap_or(0) >= 16) {
+        // not trapped in this build / at this alignment: a misaligned `&mut CmsgHdr` all the same
+        v.outcome.push_str("|start-not-8-aligned(not trapped)");
+    }
     v
 }
 
@@ -406,11 +465,25 @@ fn all_cases(max_fds: usize) -> Vec<CCase> {
             for buflen in 0..=top {
                 for fill in [0xFFu8, 0x00] {
                     for hdr_heap in [false, true] {
-                        v.push(CCase { nfds, buflen, fill, hdr_heap, ctl_none: false, passcred });
+                        v.push(CCase { nfds, buflen, fill, hdr_heap, ctl_none: false, passcred, place: 0 });
                         if nfds == 0 {
-                            v.push(CCase { nfds, buflen, fill, hdr_heap, ctl_none: true, passcred });
+                            v.push(CCase { nfds, buflen, fill, hdr_heap, ctl_none: true, passcred, place: 0 });
                         }
                     }
+                }
+            }
+        }
+    }
+    // start alignment of the caller's `&mut [u8]`: a slice may start anywhere
+    for passcred in [false, true] {
+        for nfds in 0..=max_fds {
+            let top = needed(nfds) + if passcred { 32 } else { 0 } + 24;
+            for buflen in 0..=top {
+                for place in 1..=4u8 {
+                    if place == 1 && buflen % 8 == 0 {
+                        continue; // identical to placement 0
+                    }
+                    v.push(CCase { nfds, buflen, fill: 0xFF, hdr_heap: false, ctl_none: false, passcred, place });
                 }
             }
         }
@@ -457,7 +530,7 @@ pub fn phase(args: &Args) -> Report {
     }
     let mut r = run_isolated(items, &args.out, "C16");
     r.rule = format!(
-        "REAL kernel, no sampling: for every descriptor count 0..={max_fds} x every control-buffer size 0..=CMSG_SPACE(4n)+24 x pre-fill {{0xFF, 0x00}} x msghdr placement {{stack, heap}} \
+        "REAL kernel, no sampling: for every descriptor count 0..={max_fds} x every control-buffer size 0..=CMSG_SPACE(4n)+24 x pre-fill {{0xFF, 0x00}} x msghdr placement {{stack, heap}}, and (0xFF, stack) x control-buffer start {{ends exactly at the guard page, 8-aligned+1, +2, +4}} \
          (n = 0 also without any control message) x receiver option {{plain, SO_PASSCRED set on the receiving socket: the kernel then puts an SCM_CREDENTIALS message of the unaligned length 28 in front of the SCM_RIGHTS message, buffer sizes up to 32+CMSG_SPACE(4n)+24; the SCM_RIGHTS length 16+4n is itself 8-aligned for even n and not for odd n}}: n distinct memfds are sent over socketpair(AF_UNIX, SOCK_STREAM) with MsgHdrBorrow::create_send + rusl::network::sendmsg, received with \
          rusl::network::recvmsg into a control buffer whose 8-byte-aligned start lies so that it ends (rounded up to 8) at a PROT_NONE page, and walked with control_messages(); the yielded \
          descriptors must equal what the kernel delivered (independent by-hand parse of the raw control bytes bounded by the returned msg_controllen, messages of other types must be skipped; fstat (st_dev, st_ino) identity with the sent files); every case \
